@@ -443,6 +443,34 @@ fn special_models() -> Vec<(String, Vec<u8>)> {
             v.push(("tags chunk declares 65535 tags".into(), m));
         }
     }
+    // inadmissible chunk sequences around user data: dangling record, more records than tags, records after an
+    // empty tags chunk, record for a cel that failed, record after a tags chunk in a later frame
+    {
+        let o = EncOpts::default();
+        let hdr = |frames: usize| header(&Sprite::new(2, 2, Fmt::Rgba, frames), &o, 0);
+        let ud = |k: usize| (0x2020u16, ud_payload(&UD { text: Some(format!("u{}", k)), color: if k % 2 == 0 { Some([1, 2, 3, 4]) } else { None } }));
+        let tagsn = |n: usize| (0x2018u16, tags_payload(&(0..n).map(|i| TagM { from: 0, to: 0, dir: 0, repeat: 0, name: format!("t{}", i), ud: None }).collect::<Vec<_>>(), 0));
+        let layer = (0x2004u16, layer_payload(&LayerM::image("l"), 0));
+        let seqs: Vec<(&str, Vec<(u16, Vec<u8>)>)> = vec![
+            ("user data as the first chunk", vec![ud(0)]),
+            ("tags(0) then a user data chunk", vec![layer.clone(), tagsn(0), ud(0)]),
+            ("tags(1) then two user data chunks", vec![layer.clone(), tagsn(1), ud(0), ud(1)]),
+            ("tags(2) then three user data chunks", vec![layer.clone(), tagsn(2), ud(0), ud(1), ud(2)]),
+            ("tags(3) then five user data chunks", vec![tagsn(3), ud(0), ud(1), ud(2), ud(3), ud(4)]),
+            ("user data after an ignorable first chunk", vec![(0x2006, vec![0; 20]), ud(0)]),
+            ("two tags chunks then records", vec![tagsn(2), ud(0), tagsn(1), ud(1), ud(2)]),
+        ];
+        for (name, chunks) in seqs {
+            let mut b = hdr(1);
+            b.extend_from_slice(&frame_bytes(&chunks, 100, &o));
+            v.push((format!("chunk sequence: {}", name), b));
+        }
+        // records in the second frame after a (there ignored) tags chunk
+        let mut b = hdr(2);
+        b.extend_from_slice(&frame_bytes(&[layer.clone()], 100, &o));
+        b.extend_from_slice(&frame_bytes(&[tagsn(1), ud(0), ud(1)], 100, &o));
+        v.push(("chunk sequence: tags chunk and records in frame 1".into(), b));
+    }
     // very long chunk sequences
     {
         let mut s = Sprite::new(1, 1, Fmt::Rgba, 1);
